@@ -21,4 +21,4 @@ one() {
   git -C /repo worktree remove --force "$WT" >/dev/null 2>&1; rm -rf "$WT"
 }
 export -f one
-printf "%s\n" "${ids[@]}" | xargs -P 6 -I{} bash -c 'one {}' | sort
+printf "%s\n" "${ids[@]}" | xargs -P ${PAR:-6} -I{} bash -c 'one {}' | sort
